@@ -336,28 +336,69 @@ pub fn main(args: &[String]) {
                 }
             }
         }
+        "crossop" => {
+            // two type-level conditionals that differ only in the comparison operator: convertible only if the checker confuses them
+            let ops = ["<", "<=", "==", ">", ">="];
+            let holds = |a: i64, op: &str, k: i64| match op { "<" => a < k, "<=" => a <= k, "==" => a == k, ">" => a > k, _ => a >= k };
+            let mut n = 0;
+            'co: for op1 in ops {
+                for op2 in ops {
+                    if op1 == op2 {
+                        continue;
+                    }
+                    for a in [-1i64, 0, 1] {
+                        let arg = if a < 0 { format!("(-{})", -a) } else { a.to_string() };
+                        let v = if holds(a, op1, 0) { "5" } else { "true" };
+                        let usew = if holds(a, op2, 0) { "w + 1" } else { "if w then 1 else 2" };
+                        emit(format!("coerce = (n : int) => (x : if n {op1} 0 then int else bool) => ((y : if n {op2} 0 then int else bool) => y) x\n(w = coerce {arg} {v}; {usew})"), "crossop");
+                        n += 1;
+                        if count > 0 && n >= count {
+                            break 'co;
+                        }
+                    }
+                }
+            }
+        }
         "deforder" => {
-            // groups of 3..4 definitions with random dependencies between non-values and function values
+            // groups of 3..5 definitions with random dependencies between non-values (ints) and function values; kinds are
+            // decided first so that most groups are well typed and the definition-order rule decides acceptance
             for _ in 0..count {
-                let n = r.gen_range(3..5);
+                let n = r.gen_range(3..6);
+                let is_fun: Vec<bool> = (0..n).map(|_| r.gen_bool(0.45)).collect();
+                let ints: Vec<usize> = (0..n).filter(|i| !is_fun[*i]).collect();
+                let funs: Vec<usize> = (0..n).filter(|i| is_fun[*i]).collect();
                 let mut defs = vec![];
                 for i in 0..n {
                     // mostly backward references, so that a fair share of the groups is legal
-                    let pick = |r: &mut StdRng| if i > 0 && r.gen_bool(0.75) { r.gen_range(0..i) } else { r.gen_range(0..n) };
-                    let j = pick(&mut r);
-                    let k = pick(&mut r);
-                    let d = match r.gen_range(0..5) {
-                        0 => format!("d{i} : int = {}", r.gen_range(0..9)),
-                        1 => format!("d{i} : int = d{j} + 1"),
-                        2 => format!("d{i} : int = (if d{j} < 3 then d{k} else 2) * 2"),
-                        3 => format!("d{i} : (int -> int) = (x : int) => d{j} + x"),
-                        _ => format!("d{i} : (int -> int) = (x : int) => if x <= 0 then d{j} else d{k} (x - 1)"),
+                    let pick = |r: &mut StdRng, pool: &Vec<usize>| -> Option<usize> {
+                        if pool.is_empty() { return None; }
+                        let back: Vec<usize> = pool.iter().copied().filter(|j| *j < i).collect();
+                        if !back.is_empty() && r.gen_bool(0.6) { Some(back[r.gen_range(0..back.len())]) } else { Some(pool[r.gen_range(0..pool.len())]) }
+                    };
+                    let d = if is_fun[i] {
+                        match (r.gen_range(0..3), pick(&mut r, &ints), pick(&mut r, &funs)) {
+                            (0, Some(j), _) => format!("d{i} : (int -> int) = (x : int) => d{j} + x"),
+                            (1, Some(j), Some(k)) => format!("d{i} : (int -> int) = (x : int) => if x <= 0 then d{j} else d{k} (x - 1)"),
+                            (_, _, Some(k)) if k != i => format!("d{i} : (int -> int) = (x : int) => d{k} x + 1"),
+                            _ => format!("d{i} : (int -> int) = (x : int) => x + {i}"),
+                        }
+                    } else {
+                        match (r.gen_range(0..4), pick(&mut r, &ints), pick(&mut r, &funs)) {
+                            (0, _, _) => format!("d{i} : int = {}", r.gen_range(0..9)),
+                            (1, Some(j), _) if j != i => format!("d{i} : int = d{j} + 1"),
+                            (2, _, Some(k)) => format!("d{i} : int = d{k} {}", r.gen_range(0..3)),
+                            (3, Some(j), Some(k)) if j != i => format!("d{i} : int = (if d{j} < 3 then d{k} 1 else 2) * 2"),
+                            _ => format!("d{i} : int = {} + {}", r.gen_range(0..9), r.gen_range(0..9)),
+                        }
                     };
                     defs.push(d);
                 }
-                // make the annotations consistent with uses: a name used as a function must be a function and vice versa;
-                // inconsistent programs are simply rejected by the checker (TLC agrees), so no filtering is needed
-                let body = format!("d{}", r.gen_range(0..n));
+                let body = match (ints.first(), funs.first()) {
+                    (Some(j), _) if r.gen_bool(0.6) => format!("d{j}"),
+                    (_, Some(k)) => format!("d{k} 2"),
+                    (Some(j), _) => format!("d{j}"),
+                    _ => "0".to_string(),
+                };
                 let sep = if r.gen_bool(0.5) { "; " } else { "\n" };
                 emit(format!("{}{sep}{body}", defs.join(sep)), "deforder");
             }
